@@ -305,7 +305,7 @@ impl Run {
                         self.m.files[f].phys.extend_from_slice(&buf);
                         self.m.files[f].accounted += n as u64;
                         let used = self.dm.used_disk_space();
-                        if used > self.m.limit {
+                        if used >= self.m.limit {
                             return Err(format!(
                                 "write of {n} bytes was admitted taking used_disk_space() from {before} to {used} > limit {}",
                                 self.m.limit
@@ -437,7 +437,15 @@ fn run_case(c: &Case, all_steps: bool, mut trace: Option<&mut Vec<String>>) -> R
             return Err(format!("step {i} {op:?}: operation not enabled inside a recorded history (bad case)"));
         }
         if all_steps || i + 1 == n {
-            run.observe(faulted).map_err(|e| format!("after step {i} {op:?}: {e}"))?;
+            if let Err(e) = run.observe(faulted) {
+                // diagnostic only: what is left after releasing everything
+                let dm = Arc::clone(&run.dm);
+                drop(run);
+                return Err(format!(
+                    "after step {i} {op:?}: {e}; after then releasing every writer and file used_disk_space() = {}",
+                    dm.used_disk_space()
+                ));
+            }
         }
     }
     info.key = run.m.key();
@@ -468,7 +476,7 @@ fn run_case(c: &Case, all_steps: bool, mut trace: Option<&mut Vec<String>>) -> R
 }
 
 fn explore(ctx: &Ctx) {
-    let depth = std::env::var("VERIF_C21_DEPTH").ok().and_then(|s| s.parse().ok()).unwrap_or(ctx.pick(6, 8));
+    let depth = std::env::var("VERIF_C21_DEPTH").ok().and_then(|s| s.parse().ok()).unwrap_or(ctx.pick(10, 14));
     ctx.set_extra(
         "bounds",
         json!({"max_depth": depth, "write_sizes": [SMALL, LARGE], "os_failure_after_bytes": [0, 2], "limits": ["0", LARGE.to_string(), "unlimited"],
